@@ -5,6 +5,7 @@ twin oracle and the correspondence; see MANIFEST.)
 -/
 import SC.Lemmas.Buffer
 import SC.Lemmas.BufSize
+import SC.Lemmas.Merge
 namespace SC.Props
 open SC SC.B
 
@@ -37,6 +38,17 @@ theorem C05_exit_writes_buffered_serialized (s : B.State) (oi : Nat) (o : B.Obj)
     (flushSer s oi o force).1.store o.res = some ((mergeInto s oi o e.contents).1.root o).toBase ∧
     (flushSer s oi o force).1.entry o.res = none :=
   flushSer_writes s oi o force e hb he hm hc hmerge
+
+/-- ... and that written content IS the buffered contents (the merge post-condition): same
+structure, identical scalars, same key sets — whatever the flushing object's own memory held. -/
+theorem C05_exit_writes_buffered_serialized_content (s : B.State) (oi : Nat) (o : B.Obj) (e : B.Entry)
+    (hc : e.contents.wf = true) (hr : (s.root o).wf = true) (hnn : e.contents ≠ .leaf .null)
+    (hmerge : (mergeInto s oi o e.contents).2 = none) :
+    Eqv ((mergeInto s oi o e.contents).1.root o) e.contents := by
+  rw [mergeInto_root]
+  have herr : (updNode s.fam (s.root o) e.contents s.next).err = none := by
+    simpa [mergeInto] using hmerge
+  exact (updNode_post s.fam e.contents (s.root o) s.next hc hr hnn herr).1
 
 /-- non-vacuity and the whole scenario on the machine (shared memory, list): writes inside nested
 contexts of both kinds leave the file missing; the outermost exit writes the final content. -/
